@@ -98,6 +98,7 @@ theorem execInstr_T_ok (lines : List Text.Str) {rec rec' : Rec} (hrec : RecT T Ï
   | compName f b => simp only [execInstr, pure_ok_iff] at h; subst h; rfl
   | attrAssign q => simp only [execInstr, pure_ok_iff] at h; subst h; rfl
   | globalDecl ns => simp only [execInstr, pure_ok_iff] at h; subst h; rfl
+  | nonlocalDecl ns => simp only [execInstr, pure_ok_iff] at h; subst h; rfl
   | addReturn => simp only [execInstr, pure_ok_iff] at h; subst h; rfl
   | addImport x => simp only [execInstr, pure_ok_iff] at h; subst h; rfl
   | addStar a b c => simp only [execInstr, pure_ok_iff] at h; subst h; rfl
